@@ -297,7 +297,7 @@ def c_protocol(c, shape, debug, ordered):
           ["vsc.model.solvegroup_swizzler_partsel.SolveGroupSwizzlerPartsel._build_swizzle_constraints",
            "vsc.model.solvegroup_swizzler_partsel.SolveGroupSwizzlerPartsel.create_rand_domain_constraint"],
           lambda tier, seed: [(w, s) for w in ([1, 2, 5, 6, 7, 8, 13, 32, 33, 64] if tier != "thorough" else range(1, 65))
-                              for s in (False, True)], replay="none")
+                              for s in (False, True)], replay="none", backend="bv")
 def c_swizzle_constraints(c, w, signed):
     import vsc.model.solvegroup_swizzler_partsel as SW
     from vsc.model.field_scalar_model import FieldScalarModel
@@ -323,7 +323,7 @@ def c_swizzle_constraints(c, w, signed):
     conj = z3.BitVecVal(1, 1)
     for n in nodes:
         conj = conj & n.term
-    want = z3.Extract(d - 1, 0, f.var.term) == z3.Int2BV(p.z, d)
+    want = z3.Extract(d - 1, 0, f.var.term) == (z3.Extract(d - 1, 0, p.z) if z3.is_bv(p.z) else z3.Int2BV(p.z, d))
     c.check("conjunction of the swizzle constraints <=> field[d-1:0] == pattern mod 2**d (slices tile [0,d))",
             (conj == 1) == want)
     c.check("all swizzle constraints are 1-bit nodes", all(n.width == 1 for n in nodes))
